@@ -3,8 +3,9 @@ of the ninja backend (DESIGN.md C05 "W").  Imports nothing from mesonbuild.
 
 A project is a composition of *blocks*.  Every block is a parametrised shape that exercises one
 mechanism (generated header shared by several targets, generator(), custom-target chain, built code
-generator, library zoo, subproject exporting a generated header, link_depends on a generated linker
-script, exe run at build time, generated source including a generated header, generator output fed to a
+generator, library zoo, subproject exporting a generated header, link_depends on generated / indexed /
+source-tree linker scripts and on library targets named only in link_args, precompiled headers including
+generated files of every producer kind and suffix, exe run at build time, generated source including a generated header, generator output fed to a
 custom target / to another generator, custom-target objects/archives, compiler.preprocess()).  Blocks
 export `declare_dependency()` variables; later blocks and the final executables consume a random subset,
 so mechanisms get mixed across target boundaries.
@@ -21,7 +22,10 @@ every executable is known in advance (`exes[i]['stdout']`): an oracle independen
 from __future__ import annotations
 
 import random
+import shutil
 import typing as T
+
+HAS_CPP = shutil.which('c++') is not None
 
 GEN_PY = r'''#!/usr/bin/env python3
 """gen.py MODE NAME OUT... IN...   tiny deterministic code generator (values are summed over all inputs)."""
@@ -136,12 +140,15 @@ class Proj:
         self.setup_args: T.List[str] = []
         self.subprojects: T.List[str] = []
         self.force: T.Dict[str, T.Any] = {}
+        self.has_cpp = HAS_CPP
+        self.cur = ''              # prefix of the block being generated (b0, b1, ...)
 
     def pick(self, name: str, choices: T.Sequence[T.Any]) -> T.Any:
         """Seeded choice that a directed project can pin (the rng is consumed either way)."""
         v = self.rng.choice(list(choices))
-        base = name.rsplit('.', 1)[0]
-        for key in (name, base if name.rsplit('.', 1)[-1].isdigit() else name):   # 'libs.kind.2' falls back to 'libs.kind'
+        base = name.rsplit('.', 1)[0] if name.rsplit('.', 1)[-1].isdigit() else name   # 'libs.kind.2' falls back to 'libs.kind'
+        # 'b1:pch.lang' pins the choice for the block with prefix b1 only (two blocks of one kind in a project)
+        for key in (f'{self.cur}:{name}', f'{self.cur}:{base}', name, base):
             if key in self.force and self.force[key] in choices:
                 return self.force[key]
         return v
@@ -156,7 +163,7 @@ class Proj:
 
     def flip(self, name: str, prob: float) -> bool:
         v = self.rng.random() < prob
-        return bool(self.force.get(name, v))
+        return bool(self.force.get(f'{self.cur}:{name}', self.force.get(name, v)))
 
     # ---- helpers -----------------------------------------------------------------
     def feat(self, *names: str) -> None:
@@ -698,19 +705,83 @@ def blk_subproject(P: Proj, p: str) -> None:
 
 
 def blk_link_depends(P: Proj, p: str, d: str) -> None:
-    """shared library whose linker version script is generated by a custom target (link_depends:)."""
+    """link_depends: entries of every kind the keyword accepts, each of them read by the link step: a generated linker
+    version script (custom target / indexed output of a two-output custom target), a version script of the source tree
+    (files() object / plain string), and LIBRARY targets that the link line names only through link_args:
+    (-Wl,--whole-archive <lib.full_path()>, the bare archive path, a shared library by path) - for the link step of a
+    shared library and of an executable."""
     rng = P.rng
     P.feat('link_depends')
     P.deffile(d, p)
-    P.emit(d, f"{p}_map = custom_target('{p}_map', input: '{p}.def', output: '{p}.map',\n"
-              f"  command: [py, gen, 'map', '{p}', '@OUTPUT@', '@INPUT@'])")
+    mapk = P.pick('link_depends.map', ['ct', 'ct', 'index', 'file', 'str'])
+    P.feat('link_depends:map-' + mapk)
+    if mapk == 'ct':
+        P.emit(d, f"{p}_map = custom_target('{p}_map', input: '{p}.def', output: '{p}.map',\n"
+                  f"  command: [py, gen, 'map', '{p}', '@OUTPUT@', '@INPUT@'])")
+        map_ref, map_path = f'{p}_map', f'{p}_map.full_path()'
+        P.ntargets += 1
+    elif mapk == 'index':
+        P.emit(d, f"{p}_map = custom_target('{p}_map', input: '{p}.def', output: ['{p}.map', '{p}_map_aux.txt'],\n"
+                  f"  command: [py, gen2, '@OUTPUT1@', 'map', '{p}', '@OUTPUT0@', '@INPUT@'])")
+        map_ref, map_path = f'{p}_map[0]', f'{p}_map[0].full_path()'
+        P.feat('ct-multi-output', 'ct-index')
+        P.ntargets += 1
+    else:
+        P.files[P.path(d, f'{p}.map')] = f'# {p}\n{{ global: f_*; local: *; }};\n'
+        map_ref = f"files('{p}.map')" if mapk == 'file' else f"'{p}.map'"
+        map_path = f"meson.current_source_dir() / '{p}.map'"
+    # a helper library that the link line of the shared library names only through link_args:
+    helper = P.pick('link_depends.helper', ['none', 'whole-archive', 'whole-archive', 'archive', 'shared'])
+    P.feat('link_depends:lib-' + helper)
+    ldeps = [map_ref]
+    largs = f"['-Wl,--version-script,' + {map_path}]"
+    extra_kw = ''
+    calls: T.List[str] = []
+    if helper != 'none':
+        k = rng.randint(1, 40)
+        P.files[P.path(d, f'{p}h.c')] = f'int f_{p}h(void) {{ return {k}; }}\n'
+        P.val[f'f_{p}h'] = k
+        calls.append(f'f_{p}h')
+        if helper == 'shared':
+            P.emit(d, f"{p}_hl = shared_library('{p}h', '{p}h.c')")
+            largs += f" + [{p}_hl.full_path()]"
+            extra_kw = ', build_rpath: meson.current_build_dir()'
+        else:
+            P.emit(d, f"{p}_hl = static_library('{p}h', '{p}h.c', pic: true)")
+            if helper == 'whole-archive':
+                largs += f" + ['-Wl,--whole-archive', {p}_hl.full_path(), '-Wl,--no-whole-archive']"
+            else:
+                largs += f" + [{p}_hl.full_path()]"
+        ldeps.append(f'{p}_hl')
+        P.ntargets += 1
     used = P.take(1)
     um, uc = P.use_of(used, rng)
-    P.csrc(d, f'{p}_a.c', p + '_a', um, uc)
-    P.emit(d, f"{p}_lib = shared_library('{p}s', '{p}_a.c', link_depends: {p}_map,\n"
-              f"  link_args: ['-Wl,--version-script,' + {p}_map.full_path()]{P.deps_kw(used)})")
+    P.csrc(d, f'{p}_a.c', p + '_a', um, calls + uc)
+    P.emit(d, f"{p}_lib = shared_library('{p}s', '{p}_a.c', link_depends: [{', '.join(ldeps)}],\n"
+              f"  link_args: {largs}{extra_kw}{P.deps_kw(used)})")
     P.emit(d, f"{p}_dep = declare_dependency(link_with: {p}_lib)")
-    P.ntargets += 2
+    P.ntargets += 1
+    if P.flip('link_depends.exe', 0.5):
+        # the plugins idiom that predates link_whole: an executable whose link line names a library of the project
+        # only through link_args; link_depends: is the one thing that orders its link step after that library
+        xh = P.pick('link_depends.exe_helper', ['whole-archive', 'whole-archive', 'archive', 'shared'])
+        P.feat('link_depends:exe-lib-' + xh)
+        k = rng.randint(1, 40)
+        P.files[P.path(d, f'{p}pl.c')] = f'int f_{p}pl(void) {{ return {k}; }}\n'
+        P.files[P.path(d, f'{p}x.c')] = (f'#include <stdio.h>\nint f_{p}pl(void);\n'
+                                          f'int main(void) {{ printf("{p}x %d\\n", f_{p}pl()); return 0; }}\n')
+        xkw = ''
+        if xh == 'shared':
+            P.emit(d, f"{p}_pl = shared_library('{p}pl', '{p}pl.c')")
+            xargs = f"[{p}_pl.full_path()]"
+            xkw = ', build_rpath: meson.current_build_dir()'
+        else:
+            P.emit(d, f"{p}_pl = static_library('{p}pl', '{p}pl.c')")
+            xargs = (f"['-Wl,--whole-archive', {p}_pl.full_path(), '-Wl,--no-whole-archive']" if xh == 'whole-archive'
+                     else f"[{p}_pl.full_path()]")
+        P.emit(d, f"{p}_x = executable('{p}x', '{p}x.c', link_args: {xargs}, link_depends: {p}_pl{xkw})")
+        P.exes.append({'name': f'{p}x', 'path': P.path(d, f'{p}x'), 'stdout': f'{p}x {k}\n'})
+        P.ntargets += 2
     P.exports.append(Export(f'{p}_dep', [f'f_{p}_a'], [], shared=True))
 
 
@@ -889,21 +960,65 @@ def blk_configure_mix(P: Proj, p: str, d: str) -> None:
 
 
 def blk_pch(P: Proj, p: str, d: str) -> None:
-    """A precompiled header that includes a generated header (the pch compile needs it first)."""
+    """A precompiled header (c_pch: / cpp_pch:) that #includes GENERATED files: the precompile step is a build step
+    like any other and needs every one of them first.  The included files come from each producer kind a target can
+    name (custom_target in sources, indexed output of a two-output custom_target, generator() output in the target's
+    private directory, custom_target reaching the target only through declare_dependency(sources:)) and carry header
+    suffixes as well as the include-file idioms that are neither header nor source by suffix (.inc / .def / .tbl)."""
     rng = P.rng
     P.feat('pch')
-    P.val['V_' + p] = P.deffile(d, p)
-    P.emit(d, f"{p}_h = custom_target('{p}_h', input: '{p}.def', output: '{p}.h',\n"
-              f"  command: [py, gen, 'hdr', '{p}', '@OUTPUT@', '@INPUT@'])")
-    P.files[P.path(d, f'pch/{p}_pch.h')] = f'#include "{p}.h"\n#define V_{p}pch (V_{p} + 1)\n'
-    P.val[f'V_{p}pch'] = P.val['V_' + p] + 1
+    lang = P.pick('pch.lang', ['c', 'c', 'c', 'cpp'])
+    if not P.has_cpp:
+        lang = 'c'
+    P.feat('pch:' + lang)
+    ninc = P.pick('pch.n', [1, 2, 2, 3])
+    srcs: T.List[str] = []
+    dep_srcs: T.List[str] = []
+    incs: T.List[T.Tuple[str, str]] = []
+    for k in range(ninc):
+        n = f'{p}i{k}'
+        kind = P.pick(f'pch.inc.{k}', ['ct', 'ct', 'gen', 'dep', 'ct-index'])
+        sfx = P.pick(f'pch.sfx.{k}', ['h', 'inc', 'def', 'tbl'])
+        P.val['V_' + n] = P.deffile(d, n)
+        out = f'{n}g.{sfx}'        # never the name of a file of the source tree (the inputs are <name>.def)
+        if kind in ('ct', 'dep'):
+            P.emit(d, f"{n}_t = custom_target('{n}_t', input: '{n}.def', output: '{out}',\n"
+                      f"  command: [py, gen, 'hdr', '{n}', '@OUTPUT@', '@INPUT@'])")
+            (srcs if kind == 'ct' else dep_srcs).append(f'{n}_t')
+            P.ntargets += 1
+        elif kind == 'ct-index':
+            # two-output custom target (include file + C source); only the indexed include file is a source of the target
+            P.emit(d, f"{n}_t = custom_target('{n}_t', input: '{n}.def', output: ['{out}', '{n}g_unused.c'],\n"
+                      f"  command: [py, gen, 'both', '{n}', '@OUTPUT0@', '@OUTPUT1@', '@INPUT@'])")
+            srcs.append(f'{n}_t[0]')
+            P.feat('ct-multi-output', 'ct-index')
+            P.ntargets += 1
+        else:
+            P.emit(d, f"{n}_g = generator(py, arguments: [gen_path, 'hdr', '{n}', '@OUTPUT@', '@INPUT@'], output: '@BASENAME@g.{sfx}')")
+            srcs.append(f"{n}_g.process('{n}.def')")
+        incs.append((out, 'V_' + n))
+        P.feat(f'pch-includes:{kind}', f'pch-includes:{kind}.{sfx}')
+    pch_text = ''.join(f'#include "{o}"\n' for o, _ in incs)
+    pch_text += f"#define V_{p}pch ({' + '.join(m for _, m in incs)} + 1)\n"
+    P.files[P.path(d, f'pch/{p}_pch.h')] = pch_text
+    P.val[f'V_{p}pch'] = sum(P.val[m] for _, m in incs) + 1
     k = rng.randint(1, 9)
     # the source relies on the precompiled header being force-included (-include) by the backend
-    P.files[P.path(d, f'{p}_a.c')] = f'int f_{p}_a(void) {{ return {k} + V_{p}pch; }}\n'
+    if lang == 'c':
+        P.files[P.path(d, f'{p}_a.c')] = f'int f_{p}_a(void) {{ return {k} + V_{p}pch; }}\n'
+        src = f'{p}_a.c'
+    else:
+        P.files[P.path(d, f'{p}_a.cpp')] = f'extern "C" int f_{p}_a(void) {{ return {k} + V_{p}pch; }}\n'
+        src = f'{p}_a.cpp'
     P.val[f'f_{p}_a'] = k + P.val[f'V_{p}pch']
-    P.emit(d, f"{p}_lib = {_libfn(rng)}('{p}l', '{p}_a.c', {p}_h, c_pch: 'pch/{p}_pch.h')")
+    depkw = ''
+    if dep_srcs:
+        P.emit(d, f"{p}_hdrs = declare_dependency(sources: [{', '.join(dep_srcs)}])")
+        depkw = f', dependencies: {p}_hdrs'
+        P.feat('declare_dependency-sources')
+    P.emit(d, f"{p}_lib = {_libfn(rng)}('{p}l', '{src}'{''.join(', ' + s for s in srcs)}{depkw}, {lang}_pch: 'pch/{p}_pch.h')")
     P.emit(d, f"{p}_dep = declare_dependency(link_with: {p}_lib)")
-    P.ntargets += 2
+    P.ntargets += 1
     P.exports.append(Export(f'{p}_dep', [f'f_{p}_a'], []))
 
 
@@ -990,6 +1105,7 @@ def generate(seed: T.Any, index: int = 0, force_blocks: T.Optional[T.Sequence[st
             chosen = chosen[:bi]
             break
         p = f'b{bi}'
+        P.cur = p
         d = f'd{bi}' if P.flip('subdir', 0.5) else ''
         if b == 'ct_header':
             blk_ct_header(P, p, d)
@@ -1026,6 +1142,7 @@ def generate(seed: T.Any, index: int = 0, force_blocks: T.Optional[T.Sequence[st
             raise ValueError(b)
         if d:
             P.feat('subdir')
+    P.cur = ''
     # final executables
     nexe = 1 if rng.random() < 0.7 else 2
     for xi in range(nexe):
@@ -1064,6 +1181,8 @@ def generate(seed: T.Any, index: int = 0, force_blocks: T.Optional[T.Sequence[st
             P.emit(d, f"executable('{nm}', '{nm}_main.c'{extra}{P.deps_kw(used)})")
         P.ntargets += 1
         P.exes.append({'name': nm, 'path': P.path(d, nm), 'stdout': f'{nm} {tot}\n'})
+    if 'pch:cpp' in P.features:
+        head[0] = "project('c05p', 'c', 'cpp', default_options: ['warning_level=0'])"
     root = head + P.lines['']
     for d, lines in P.lines.items():
         text = '\n'.join(root if d == '' else lines) + '\n'
